@@ -1,6 +1,6 @@
 /- Driver.History — the `history` engine (C02): judges every step of a history of modifying calls. -/
 import Hw.Topo.History
-import Hw.Topo.Insert
+import Hw.Topo.InsertLemmas
 import Driver.Topo
 namespace Driver.HistoryEng
 open Hw.Topo Hw.Topo.Hist Driver
@@ -97,6 +97,8 @@ def judgeGroup (prev new : Dump) (op : List String) (ret : Option (Int × String
     let rc := (ret.map (·.1)).getD 99
     let after := Ins.rows 0 (treeOf new)
     let shape (t : Ins.T) : List String := if Ins.rows 0 t == after then [] else ["group-shape-differs-from-model"]
+    -- hypothesis of the insertion theorems (C02_insert_*): the real tree is laminar (sound check `lamB`)
+    (if Ins.lamB (treeOf prev) then [] else ["group-precondition-tree-not-laminar"]) ++
     match Ins.insertGroup ((prev.filters[tGROUP]?).getD 0) (r.cpuset.getD 0) (r.nodeset.getD 0) numas (treeOf prev) newGp a with
     | .einval => if rc == -1 then [] else ["group-return-differs-from-model:einval"]
     | .mergedRoot => (if rc == 1 then [] else ["group-return-differs-from-model:merged-root"]) ++ shape (treeOf prev)
